@@ -129,6 +129,19 @@ def has_greedy(a):
     return any(ge(e) for _, al in a["rules"] for es, _ in al for e in es)
 
 
+def has_assoc_meta(a):
+    """an explicit associativity or priority on some alternative (group alternatives included)"""
+    def gm(alts):
+        for es, m in alts:
+            if m[0] != 0 or m[1] != 10:
+                return True
+            for e in es:
+                if e[0] == "grp" and gm(e[1]):
+                    return True
+        return False
+    return any(gm(al) for _, al in a["rules"])
+
+
 def count_ops(a):
     c = {"opt": 0, "star": 0, "plus": 0, "sep": 0, "greedy": 0, "group": 0, "nested_group": 0}
 
@@ -265,11 +278,18 @@ def gen_clean(rng, greedy=False, p_group=0.22, p_op=0.55):
             if m in (2, 3):
                 m = rng.choice([0, 1])
             base_null = True
+        force_sep = False
         if base_null and m in (2, 3):
-            m = 1
+            # a nullable element repeated: unambiguous only as one-or-more with a separator
+            # (every empty match is then a separate element of the resulting list)
+            if base[0] == "grp" and rng.random() < 0.6:
+                m = M_PLUS
+                force_sep = True
+            else:
+                m = 1
         g = bool(m) and greedy and rng.random() < 0.5
         sep = None
-        if m in (2, 3) and rng.random() < 0.3:
+        if m in (2, 3) and (force_sep or rng.random() < 0.3):
             sep = rng.choice(seps)
         nul = base_null or m in (1, 2)
         return (base[0], base[1], m, g, sep), nul
@@ -988,6 +1008,12 @@ def run(ctx):
                 # ----- greedy grammars
                 if kind != "glr":
                     # LR with greedy marks: whatever it returns must be a result of the expansion
+                    continue
+                if has_assoc_meta(a):
+                    # explicit {left}/{right}/priority marks prune table actions even under GLR, and do so
+                    # differently in the differently shaped tables of the greedy grammar, its '!'-free form
+                    # and the expansion: language differences cannot be attributed to the greedy mark
+                    st["greedy_skipped_explicit_assoc"] = st.get("greedy_skipped_explicit_assoc", 0) + 1
                     continue
                 st["greedy_language_checked"] += 1
                 ng = x.get("ng")
